@@ -34,3 +34,22 @@ def session(xs):
         rs[i] = take_thread(us[i] if prev is None else const(us[i], prev))
         prev = rs[i]
     return rs
+
+
+# ---- one Scheduler object used for several runs (a notebook session): each run reduces its own expression ----
+@task(version="1")
+def slow_ok(x, delay):
+    import time
+    time.sleep(delay)
+    return x
+
+
+@task(version="1")
+def boom_now(msg):
+    raise ValueError(msg)
+
+
+@task(version="1")
+def aborted(msg, delay):
+    """fails at once while a sibling is still with its executor"""
+    return [boom_now(msg), slow_ok(1, delay)]
